@@ -192,7 +192,12 @@ func (c *Case) Shrinks() []sim.CaseI {
 
 // ---------- generator ----------
 
-var depKinds = []string{"out", "out", "interp", "nested", "mid", "const", "len"}
+// Ways in which a task refers to another one: its output, an interpolation of it, a nested
+// field, a field outside any task that refers to it, a constant the task declares (a
+// dependency only when concrete values count), the length of the output, the whole of a
+// result struct, the whole of a closed list of records that the task fills, one record of
+// that list, a comprehension over it.
+var depKinds = []string{"out", "out", "interp", "nested", "mid", "const", "len", "whole", "recs", "recs", "rec0", "comp"}
 
 func gen(seed uint64, tier string, idx int) sim.CaseI {
 	wr := sim.NewRand(sim.Mix(seed, 1))
@@ -407,6 +412,14 @@ func (c *Case) depExpr(d Dep) string {
 		return r + ".k + 1"
 	case "len":
 		return fmt.Sprintf("len(%s.out)", r)
+	case "whole":
+		return r + ".res"
+	case "recs":
+		return r + ".recs"
+	case "rec0":
+		return r + ".recs[0].v"
+	case "comp":
+		return fmt.Sprintf("[for r in %s.recs {r.v}]", r)
 	}
 	panic("bad dep kind " + d.Kind)
 }
@@ -442,6 +455,7 @@ func (c *Case) body(i int, indent string) string {
 	}
 	w("out: string")
 	w("res: deep: string")
+	w(`recs: [{n: "a", v: string}, {n: "b", v: string}]`)
 	if t.Role == "gen" {
 		w("lst: [...int]")
 	}
@@ -646,6 +660,14 @@ func buildModel(c *Case) *model {
 					in.in[key] = c.Tasks[d.On].K + 1
 				case "len":
 					in.in[key] = len(p.out)
+				case "whole":
+					in.in[key] = map[string]any{"deep": "D" + p.out}
+				case "recs":
+					in.in[key] = []any{map[string]any{"n": "a", "v": p.out}, map[string]any{"n": "b", "v": "E" + p.out}}
+				case "rec0":
+					in.in[key] = p.out
+				case "comp":
+					in.in[key] = []any{p.out, "E" + p.out}
 				}
 				if d.Kind == "const" {
 					if !c.IgnoreConcrete {
@@ -780,7 +802,8 @@ func (r runner) Run(t *flow.Task, _ error) error {
 		name = i.name
 	}
 	out := name + "(" + in + ")"
-	res := map[string]any{"out": out, "res": map[string]any{"deep": "D" + out}}
+	res := map[string]any{"out": out, "res": map[string]any{"deep": "D" + out},
+		"recs": []any{map[string]any{"n": "a", "v": out}, map[string]any{"n": "b", "v": "E" + out}}}
 	if i := h.m.insts[path]; i != nil && h.c.Tasks[i.spec].Role == "gen" {
 		res["lst"] = h.c.Tasks[i.spec].List
 	}
@@ -1064,7 +1087,8 @@ func judge(c *Case, m *model, h *harness, runErr error, final []byte, finalErr e
 	v := ctx.CompileString(src, cue.Filename("wf.cue"))
 	for _, p := range m.order {
 		in := m.insts[p]
-		resv := map[string]any{"out": in.out, "res": map[string]any{"deep": "D" + in.out}}
+		resv := map[string]any{"out": in.out, "res": map[string]any{"deep": "D" + in.out},
+			"recs": []any{map[string]any{"n": "a", "v": in.out}, map[string]any{"n": "b", "v": "E" + in.out}}}
 		if c.Tasks[in.spec].Role == "gen" {
 			resv["lst"] = c.Tasks[in.spec].List
 		}
